@@ -6,7 +6,7 @@ pub fn is_glob(s: &str) -> bool {
 
 pub fn convert_glob_to_pattern(s: &str) -> String {
     let string = s.to_string();
-    let regex = Regex::new("(\\?|\\.|\\*|\\[|\\]|\\(|\\)|\\^|\\$)").unwrap();
+    let regex = Regex::new("(\\?|\\.|\\*|\\[|\\]|\\(|\\)|\\^|\\$|\\+|\\{|\\}|\\||\\\\)").unwrap();
     let string = regex.replace_all(&string, |c: &Captures| {
         match c.index(0) {
             "." => "\\.",
@@ -18,22 +18,27 @@ pub fn convert_glob_to_pattern(s: &str) -> String {
             ")" => "\\)",
             "^" => "\\^",
             "$" => "\\$",
+            "+" => "\\+",
+            "{" => "\\{",
+            "}" => "\\}",
+            "|" => "\\|",
+            "\\" => "\\\\",
             _ => error_exit("Error parsing glob expression", s),
         }
         .to_string()
     });
 
-    format!("^(?i){}$", string)
+    format!("^(?is){}$", string)
 }
 
 pub fn convert_like_to_pattern(s: &str) -> String {
     let string = s.to_string();
-    let regex = Regex::new("(%|_|\\?|\\.|\\*|\\[|\\]|\\(|\\)|\\^|\\$)").unwrap();
+    let regex = Regex::new("(%|_|\\?|\\.|\\*|\\[|\\]|\\(|\\)|\\^|\\$|\\+|\\{|\\}|\\||\\\\)").unwrap();
     let string = regex.replace_all(&string, |c: &Captures| {
         match c.index(0) {
             "%" => ".*",
             "_" => ".",
-            "?" => ".?",
+            "?" => "\\?",
             "." => "\\.",
             "*" => "\\*",
             "[" => "\\[",
@@ -42,12 +47,17 @@ pub fn convert_like_to_pattern(s: &str) -> String {
             ")" => "\\)",
             "^" => "\\^",
             "$" => "\\$",
+            "+" => "\\+",
+            "{" => "\\{",
+            "}" => "\\}",
+            "|" => "\\|",
+            "\\" => "\\\\",
             _ => error_exit("Error parsing LIKE expression", s),
         }
         .to_string()
     });
 
-    format!("^(?i){}$", string)
+    format!("^(?is){}$", string)
 }
 fn dec(x: &str) -> String { x.split(' ').filter(|t| !t.is_empty()).map(|t| char::from_u32(t.parse::<u32>().unwrap()).unwrap()).collect() }
 fn main() {
